@@ -1843,6 +1843,7 @@ class ViewsConfiguratorMixin:
                 attr=attr,
                 renderer=renderer,
                 permission=NO_PERMISSION_REQUIRED,
+                require_csrf=False,
             )
             if IResponse.implementedBy(append_slash):
                 view = AppendSlashNotFoundViewFactory(
